@@ -519,17 +519,31 @@ class AttrList(list):
     """list subclass whose instances also carry attributes"""
 
 
+class AttrDict2(AttrDict):
+    """a subclass of a dict subclass (no registered type among its direct bases)"""
+
+
+class AttrList2(AttrList):
+    """a subclass of a list subclass"""
+
+
 def _attr_holders():
     d = AttrDict({'x': 'item-x'})
     d.x = 'attr-x'
     l = AttrList(['e0', 'e1'])
     l.x = 'attr-x'
-    return {'d': d, 'l': l, 'hs': [d, l]}
+    import collections
+
+    class Tally(collections.Counter):
+        pass
+    d2 = AttrDict2({'x': 'item-x'}); d2.x = 'attr-x'
+    l2 = AttrList2(['e0']); l2.x = 'attr-x'
+    return {'d': d, 'l': l, 'hs': [d, l], 'd2': d2, 'l2': l2, 'c': Tally(x=1)}
 
 
 def _attr_state(t):
     return {k: (type(h).__name__, list(h.items()) if isinstance(h, dict) else list(h), sorted(h.__dict__.items()))
-            for k, h in (('d', t['d']), ('l', t['l']))}
+            for k, h in t.items() if k != 'hs'}
 
 
 def attribute_vs_item_on_container_subclasses(col):
@@ -545,6 +559,10 @@ def attribute_vs_item_on_container_subclasses(col):
         ('T[index] on a list subclass', lambda: T['l'][0], lambda t: t['l'].__setitem__(0, 'NEW')),
         ('plain segment on a list subclass', lambda: 'l.1', lambda t: t['l'].__setitem__(1, 'NEW')),
         ('T.attr behind a star', lambda: T['hs'].__star__().x, lambda t: (setattr(t['d'], 'x', 'NEW'), setattr(t['l'], 'x', 'NEW'))),
+        ('plain segment on a second-level dict subclass', lambda: 'd2.x', lambda t: t['d2'].__setitem__('x', 'NEW')),
+        ('plain new key on a second-level dict subclass', lambda: Path('d2', 'fresh'), lambda t: t['d2'].__setitem__('fresh', 'NEW')),
+        ('plain segment on a second-level list subclass', lambda: 'l2.0', lambda t: t['l2'].__setitem__(0, 'NEW')),
+        ('plain segment on a Counter subclass', lambda: 'c.x', lambda t: t['c'].__setitem__('x', 'NEW')),
     ]
     for desc, mk, edit in cases:
         t, twin = _attr_holders(), _attr_holders()
